@@ -15,9 +15,13 @@ type simScenario struct {
 	Pre      []int // pool sizes of the clean rounds that build the pre-state
 	Main     int   // pool size of the round that is swept
 	PreCrash bool  // pre-state ends "lock ahead of storage" (crash right after the lock commit of the last pre round)
+	Fat      int   // the first Fat entries of the main round carry 64 KiB certificates (staging bundles and data tiles of several MiB)
 }
 
 func (sc simScenario) String() string {
+	if sc.Fat > 0 {
+		return fmt.Sprintf("pre=%v main=%d (first %d entries 64KiB) lockAhead=%v", sc.Pre, sc.Main, sc.Fat, sc.PreCrash)
+	}
 	return fmt.Sprintf("pre=%v main=%d lockAhead=%v", sc.Pre, sc.Main, sc.PreCrash)
 }
 
